@@ -33,6 +33,16 @@ func d1GenFatigueProps(r *Rng) J {
 		pr["params"] = J{"value": 0.5}
 	default: // no function at all
 	}
+	if pp, ok := pr["params"].(J); ok { // optional parameters left out: the documented default (0) applies
+		for _, k := range sortedJKeys(pp) {
+			if r.chance(0.15) {
+				delete(pp, k)
+			}
+		}
+	}
+	if r.chance(0.08) {
+		delete(pr, "randomSeed")
+	}
 	switch k := r.Intn(100); {
 	case k < 40: // bounding off
 	case k < 85:
@@ -47,10 +57,6 @@ func d1GenFatigueProps(r *Rng) J {
 	}
 	return pr
 }
-
-
-
-
 
 func d1In17(bc *d1BiasCase, pr J) interface{} { return bc.input("fatigue", pr) }
 
